@@ -209,6 +209,16 @@ func main() {
 		}
 		t.Close()
 		fmt.Printf("events=%d\n", t.N)
+	case "plans":
+		t, err := drv.NewTrace(*out)
+		if err != nil {
+			panic(err)
+		}
+		if err := drv.RunPlans(*specFile, *parts, *part, *maxprobe, t); err != nil {
+			panic(err)
+		}
+		t.Close()
+		fmt.Printf("events=%d\n", t.N)
 	case "probes":
 		t, err := drv.NewTrace(*out)
 		if err != nil {
